@@ -20,8 +20,12 @@ _SPEC = {
     "xdt": (8, 2, 1.0, 2.0, 100.0, True),
     "xfc": (4, 2, 1.0, 1.0, 100.0, True),
     "xfm": (8, 2, 1.0, 1.0, 101.0, True),
+    "ydf": (8, 2, 1.0 + 2.0 ** -17, 1.0, 100.0, True),     # near misses: relative difference 2^-17
+    "ydt": (8, 2, 1.0, 1.0 + 2.0 ** -17, 100.0, True),
+    "yfm": (8, 2, 1.0, 1.0, 100.0 + 2.0 ** -10, True),
 }
-_T0 = {"a": 0, "b": 5, "c": 16, "d": 9, "xdf": 1, "xdt": 1, "xfc": 1, "xfm": 1}
+TK = 131072.0
+_T0 = {"a": 0, "b": 5, "c": 16, "d": 9, "xdf": 1, "xdt": 1, "xfc": 1, "xfm": 1, "ydf": 1, "ydt": 1, "yfm": 1}
 
 
 class NotAFrame(object):
@@ -66,8 +70,7 @@ def project(pool, cad, order):
     labels = {k: f.metadata.get("order_label", "-") for k, f in pool.frames.items()}
     t0 = {}
     for k, f in pool.frames.items():
-        v = f.t_start - T_BASE
-        t0[k] = int(v) if float(v).is_integer() else v
+        t0[k] = _num((f.t_start - T_BASE) * TK)
     if cad is None or len(cad) == 0:
         agg = {"empty": True}
         if cad is not None:
@@ -76,9 +79,9 @@ def project(pool, cad, order):
                 if getattr(cad, attr) is not None:
                     agg["bad_" + attr] = repr(getattr(cad, attr))
     else:
-        sl = [float(x) for x in cad.slew_times]
-        agg = {"empty": False, "tchans": int(cad.tchans), "obsRange": _num(cad.obs_range),
-               "tstart": _num(cad.t_start - T_BASE), "slews": [_num(x) for x in sl]}
+        sl = [float(x) * TK for x in cad.slew_times]
+        agg = {"empty": False, "tchans": int(cad.tchans), "obsRange": _num(cad.obs_range * TK),
+               "tstart": _num((cad.t_start - T_BASE) * TK), "slews": [_num(x) for x in sl]}
     return {"ids": ids, "labels": labels, "agg": agg, "t0": t0,
             "order": list(getattr(cad, "order", order)) if cad is not None and hasattr(cad, "order") else order}
 
@@ -159,7 +162,7 @@ def apply(pool, state, act, variant=0):
         elif name == "SetOrder":
             cad.set_order("".join(act["order"]))
         elif name == "OverwriteTimes":
-            cad.t_slew = act["slew"]
+            cad.t_slew = act["slew"] / TK
             cad.overwrite_times()
         else:
             raise RuntimeError("adapter: unknown action %r" % name)
